@@ -107,11 +107,36 @@ def arr_setitem(I, arr, idx, v, env):
             return z3.Store(t, js[0], store(z3.Select(t, js[0]), js[1:]))
         arr.arr = store(arr.arr, js)
         return
+    if len(idx) == 1 and isinstance(idx[0], SliceObj) and len(arr.shape) == 1 \
+            and idx[0].start is None and idx[0].stop is None and idx[0].step is None:
+        # a[:] = value / list  (whole-array fill)
+        if isinstance(v, PList):
+            items = v.items
+            n = simp(arr.shape[0])
+            if isinstance(n, int) and len(items) != n:
+                I.throw("ValueError", "could not broadcast input array")
+            first = items[0] if items else 0
+            if all(x is first for x in items):
+                v = first
+            else:
+                t = arr.arr
+                for k, x in enumerate(items):
+                    c = I.convert(arr.ctype, x) if arr.ctype else x
+                    t = z3.Store(t, k, zint(I.unC(c)))
+                arr.arr = t
+                return
+        c = I.convert(arr.ctype, v, f"store to {arr.name}") if arr.ctype else v
+        val = zreal(I.unC(c)) if (arr.ctype and is_float_ctype(arr.ctype)) else zint(I.unC(c))
+        arr.arr = z3.K(z3.IntSort(), val)
+        return
     raise Unsupported(f"array item store {idx!r}")
 
 
 def arr_attr(I, arr, name):
     if name == "shape":
+        if arr.memview:
+            # memoryview.shape[k] is a C Py_ssize_t
+            return tuple(CV("Py_ssize_t", s) for s in arr.shape)
         return tuple(arr.shape)
     if name == "ndim":
         return len(arr.shape)
@@ -190,6 +215,19 @@ def make_module(I):
     for d in DTYPES:
         ns[d] = DType(d.rstrip("_"))
     ns["int"] = DType("int64")
+    ns["ubyte"] = DType("uint8")
+    ns["byte"] = DType("int8")
+    ns["intc"] = DType("int32")
+    ns["uintc"] = DType("uint32")
+    ns["intp"] = DType("int64")
+    ns["double"] = DType("float64")
+    ns["single"] = DType("float32")
+
+    def _asarray(I_, a, k):
+        v = a[0]
+        if isinstance(v, SymArr):
+            return SymArr(v.name, v.ctype, v.shape, store=v.store, readonly=v.readonly, memview=False)
+        return _array(I_, a, k)
 
     def _array(I_, a, k):
         src = a[0]
@@ -203,6 +241,7 @@ def make_module(I):
         arr.arr = t
         return arr
     ns["array"] = Native("np.array", _array)
+    ns["asarray"] = Native("np.asarray", _asarray)
 
     def _zeros(I_, a, k):
         shape = a[0]
